@@ -14,6 +14,7 @@ from . import core, env, thrx
 from .cacheh import VTime
 
 INF = float('inf')
+POLL_LIMIT = 16
 
 _init_code = {}
 
@@ -136,6 +137,27 @@ class WriterHarness(thrx.Harness):
                   carbon.writer.reactor, instrumentation.increment, state.database)
     carbon.util.time = s.time
     carbon.util.sleep = s.sleep
+    # Busy waits made visible: code that polls the clock (token bucket peek) in a loop without sleeping waits for real
+    # time to pass.  On a frozen virtual clock that loop never ends, so once the clock has been read POLL_LIMIT times
+    # in a row at the same virtual instant, every further read lets one second pass (always a legitimate behaviour of a
+    # real clock; code that does not poll never reaches the limit: the clean tree's state/transition counts are unchanged).
+    self.polls = [None, 0, 0]          # [instant, reads at that instant, max over the execution]
+    self.poll_jumps = 0
+
+    def polled_time():
+      k = self.polls
+      if k[0] != s.now:
+        k[0], k[1] = s.now, 0
+      k[1] += 1
+      if k[1] > k[2]:
+        k[2] = k[1]
+      if k[1] > POLL_LIMIT:
+        s.now += 1.0
+        self.poll_jumps += 1
+        k[0], k[1] = s.now, POLL_LIMIT      # keep jumping on every further read until something sleeps
+      return s.now
+    if not p.get('clock_jumps'):
+      carbon.util.time = polled_time
     if p.get('clock_jumps'):
       # a real clock moves between two reads inside one operation: when the token bucket's blocking drain reads the
       # clock again after peek(), the explorer may let two token-times pass first (the thread was descheduled)
